@@ -525,7 +525,7 @@ class Scenario:
                               else ('channel', rng.random() < 0.5, rng.random() < 0.5) if t == 'RequestChannel' else ('none',)])
             oid = self._oid_next()
             self._inject(fr, out)
-            if len(self.rec.objs) > oid and sid not in self.theirs:
+            if len(self.rec.objs) > oid and sid not in self.theirs and t != 'RequestFnf':
                 self.theirs[sid] = {'kind': {'RequestResponse': 'rr', 'RequestStream': 'rs', 'RequestChannel': 'rc'}[t],
                                     'oid': oid, 'sid': sid, 'app': self.rec.app.get(oid, {}), 'done': False,
                                     'peer_done': fr.get('complete', False), 'hostile': True}
